@@ -293,7 +293,7 @@ PROPS["C20"] = dict(
                "asgi.CachedStream.push", "asgi.CachedStream.push_eof", "asgi.CachedStream.__anext__",
                "asgi.NextResponse.from_app.send", "asgi.NextResponse.render_stream", "asgi.StreamingResponse.__call__",
                "wsgi.middleware.wsgi", "wsgi.decorator.view", "asgi.decorator.view",
-               "asgi.NextResponse.from_app", "asgi.middleware.asgi"],
+               "asgi.NextResponse.from_app", "asgi.middleware.asgi", "list_headers[body]"],
     refute={"quick": [2], "thorough": [1, 2, 3]},
     native="c20",
     level="other",
